@@ -31,6 +31,7 @@ SPEC = [
     ("real_star", "real*8 :: {n1}", "fix"),
     ("char_len", "character(len={d1}) :: {n1} = '{s1}'", "fix"),
     ("char_star", "character(len=*), parameter :: {n1} = \"{s1}\"", ""),
+    ("int_many", "integer :: {n1}, {n2}, {n3}, {n4}, {n5}, {n6}, {n7}({d1}), i8, i9, i10 = {d1}, i11({d1})", "fix"),
     ("int_dim", "integer, dimension({d1}) :: {n1}", "fix one"),
     ("real_alloc", "real, allocatable :: {n1}(:, :)", "one"),
     ("type_decl", "type({n1}) :: {n2}", "fix"),
@@ -90,6 +91,8 @@ EXEC = [
     ("assign_call", "{n1} = {n2}({n3}, {d1}) + {n4}({n5}({d2}))", "fix one"),
     ("assign_section", "{n1}(1:{d1}, :) = {n2}(::{d2}, {n3})", "one"),
     ("assign_arrcons", "{n1} = (/ {d1}, {d2}, {n2} /)", "fix"),
+    ("assign_arrcons_long", "{n1} = (/ {d1}, {d2}, {n2}, {d1}, {n2}, {d3}, 7, {n3}, 9, {n2} + 1, {n3} /)", "fix"),
+    ("call_long", "call {n1}({n2}, {n3}, {n2}, {d1}, {d1}, {n4}, {n2}, 8, {n4}, {n3}({n2}), {n2})", "fix"),
     ("assign_kind", "{n1} = {d1}_{n2} + 1.0_{d2}", "fix"),
     ("ptr_assign", "{n1} => {n2}", "one"),
     ("nullify", "nullify({n1})", "one"),
